@@ -185,7 +185,9 @@ pub fn run(tier: Tier, replay: Option<Value>) -> ! {
         }
         let b = &br[i];
         let want = format!("{}exit={}", o.out_str(), o.status);
-        let got = if b.timed_out { format!("HANG (no exit within {} ms; bash took {} ms)", cap(i) * 2, o.wall_ms) } else { format!("{}exit={}", b.out_str(), b.status) };
+        // (the observation of a hang carries no wall-clock numbers: it is pinned in the witness table)
+        let got = if b.timed_out { "HANG (no exit within the wall-clock cap, confirmed in isolation with a doubled cap)".to_string() } else { format!("{}exit={}", b.out_str(), b.status) };
+        let want = if b.timed_out { format!("{want}\n(bash took {} ms; cap {} ms)", o.wall_ms, cap(i) * 2) } else { want };
         rep.observe(&got);
         rep.nontrivial.insert(c.tags.join(","));
         if i % (cases.len() / 5).max(1) == 0 {
